@@ -126,10 +126,17 @@ def r1(chk):
     tx = Tx()
     tx.skip_calls = True
     for st in fn.body:
-        if isinstance(st, ast.Assign) and len(st.targets) == 1 and isinstance(st.targets[0], ast.Name) \
-                and st.targets[0].id in ("margin", "u"):
-            tx._assign(st.targets[0], tx.expr(st.value))
-    got = tx.env.get("u")
+        if isinstance(st, ast.Assign) and len(st.targets) == 1 and isinstance(st.targets[0], ast.Name):
+            try:
+                tx._assign(st.targets[0], tx.expr(st.value))
+            except symx.Unsupported:
+                pass
+    # the bound is what the helper hands to NonnegMean as u=
+    ucalls = [k.value for c in ast.walk(fn) if isinstance(c, ast.Call) and norm(c.func) == "NonnegMean" for k in c.keywords if k.arg == "u"]
+    got = None
+    if ucalls:
+        vals = [symx.prune(tx.expr(u)) for u in ucalls]
+        got = vals[0] if all(symx.equivalent(vals[0], v)[0] for v in vals[1:]) else None
     ok = isinstance(got, E) and is_zero(got.e - 2 / (2 - (2 * S("mean") - 1) / S("upper_bound")))
     chk.ob("C06.R1", f"{RE2}:sample_size", "bound-sibling", ok,
            "RAIRE's sample-size helper uses u == 2/(2 - margin/upper_bound) with margin = 2*mean - 1", node=fn,
@@ -232,8 +239,12 @@ def r4(chk):
     call = [x for x in ast.walk(elt) if isinstance(x, ast.Call) and norm(x.func).endswith("overstatement_assorter")][0]
     args = [norm(a) for a in call.args]
     kw = {k.arg: norm(k.value) for k in call.keywords}
-    ok = args[:2] == [f"mvr_sample[{i}]", f"cvr_sample[{i}]"] and (kw.get("use_style") == "use_style" or (len(args) > 2 and args[2] == "use_style")) \
-        and elt is call
+    us_node = next((k.value for k in call.keywords if k.arg == "use_style"), call.args[2] if len(call.args) > 2 else None)
+    us_ok = False
+    if us_node is not None:
+        v = tx.child(dict(tx.env)).expr(us_node)
+        us_ok = isinstance(v, E) and sp.sstr(v.e) == "self.contest.use_style"
+    ok = args[:2] == [f"mvr_sample[{i}]", f"cvr_sample[{i}]"] and us_ok and elt is call
     chk.ob("C06.R4", where, "aligned-pairs", ok,
            "the datum for position i is B(mvr_sample[i], cvr_sample[i]) with the contest's use_style", node=call, args=args, kwargs=kw)
     ok = norm(it) in ("range(len(mvr_sample))", "range(len(cvr_sample))")
